@@ -261,6 +261,40 @@ func TestRegressC02(t *testing.T) {
 		r.fail("the first file does not hold what was written to it")
 	}
 	r.done()
+	// former known finding KF2: a directory moved to another parent takes its ".." along (also over an existing empty directory)
+	r = newRg(t, "C02", "MKDIR a, b, a/s, b/t; RENAME a/s -> b/s; RENAME b/s -> a/t2; RENAME a/t2 -> b/t (over an empty directory)", 1540+300)
+	a, b := r.mkdir(r.root, "a"), r.mkdir(r.root, "b")
+	sdir := r.mkdir(a, "s")
+	r.mkdir(b, "t")
+	r.create(sdir, "inside")
+	dotdot := func(what string, parent nt.Nfs_fh3) {
+		l := r.s.API().NFSPROC3_LOOKUP(nt.LOOKUP3args{What: nt.Diropargs3{Dir: sdir, Name: ".."}})
+		if l.Status != nt.NFS3_OK || !bytes.Equal(l.Resok.Object.Data, parent.Data) {
+			r.fail("%s: LOOKUP '..' in the moved directory gives status %d handle %x, its parent is %x", what, l.Status, l.Resok.Object.Data, parent.Data)
+		}
+		r.s.Quiesce()
+		if rep := Fsck(r.s.N.VerifFsState(), FsckOpts{Exact: true, Allocators: true}); len(rep.Problems) > 0 {
+			r.fail("%s: fsck: %v", what, rep.Problems)
+		}
+	}
+	mv := func(fd nt.Nfs_fh3, fn string, td nt.Nfs_fh3, tn string) {
+		if st := r.s.API().NFSPROC3_RENAME(nt.RENAME3args{From: nt.Diropargs3{Dir: fd, Name: nt.Filename3(fn)}, To: nt.Diropargs3{Dir: td, Name: nt.Filename3(tn)}}).Status; st != nt.NFS3_OK {
+			r.fail("RENAME %s -> %s: status %d", fn, tn, st)
+		}
+	}
+	mv(a, "s", b, "s")
+	dotdot("after RENAME a/s -> b/s", b)
+	r.s.Restart()
+	dotdot("after a restart", b)
+	mv(b, "s", a, "t2")
+	dotdot("after RENAME b/s -> a/t2", a)
+	mv(a, "t2", b, "t")
+	dotdot("after RENAME a/t2 -> b/t over an empty directory", b)
+	if st := r.s.API().NFSPROC3_RMDIR(nt.RMDIR3args{Object: nt.Diropargs3{Dir: r.root, Name: "a"}}).Status; st != nt.NFS3_OK {
+		r.fail("RMDIR of the now empty directory a: status %d", st)
+	}
+	dotdot("after RMDIR a", b)
+	r.done()
 }
 
 func TestRegressC05(t *testing.T) {
